@@ -1,6 +1,7 @@
 //! vx-core: explorer primitives, report plumbing and small utilities shared by
 //! all property checkers.  See /verif/DESIGN.md §1.2.
 
+pub mod cli;
 pub mod explore;
 pub mod report;
 pub mod util;
